@@ -5,7 +5,7 @@ use serde_json::json;
 
 use crate::runner::*;
 
-pub const RULE: &str = "(typelevel) a separate crate with Send + Sync obligations for Expression<'static>, Runtime, Variable, Rcvar, Ast, JmespathError and Box<dyn Function> is compiled against the library built with `sync` (a build-time fact, not a generated search); (workload) generated concurrent workloads: <= 12 generated expressions (core, typed functions, by-functions, failing), <= 6 shared documents, 2..16 threads released by a barrier, each with a generated job list and generated yield points, compiled expressions shared by reference and additionally compiled inside the threads; every result must equal the sequential result computed before and again after the run, no panic, documents unchanged; (custom-runtime) a runtime built by the case (closures and CustomFunctions with signatures, registered / deregistered around the built-ins) shared by reference, first searches concurrent, results equal to those of an identically built twin; (first-use) fresh child processes whose very first use of the crate is N threads released by a barrier into compile/search (the lazy default runtime); thorough adds the workload under ThreadSanitizer; non-trivial = a workload in which >= 2 threads searched the same compiled expression on the same shared document during overlapping intervals, measured by timestamps (distinct by workload text)";
+pub const RULE: &str = "(typelevel) a separate crate with Send + Sync obligations for Expression<'static>, Runtime, Variable, Rcvar, Ast, JmespathError and Box<dyn Function> is compiled against the library built with `sync` (a build-time fact, not a generated search); (workload) generated concurrent workloads: <= 12 generated expressions (core, typed functions, by-functions, failing), <= 6 shared documents, 2..16 threads released by a barrier, each with a generated job list and generated yield points, compiled expressions shared by reference and additionally compiled inside the threads; every result must equal the sequential result computed before and again after the run, no panic, documents unchanged; (custom-runtime) a runtime built by the case (closures and CustomFunctions with signatures, registered / deregistered around the built-ins) shared by reference, first searches concurrent, results equal to those of an identically built twin; (function-storm) every built-in called from all threads at once with different literal arguments per call; (first-use) fresh child processes whose very first use of the crate is N threads released by a barrier into compile/search (the lazy default runtime); thorough adds the workload under ThreadSanitizer; non-trivial = a workload in which >= 2 threads searched the same compiled expression on the same shared document during overlapping intervals, measured by timestamps (distinct by workload text)";
 
 #[cfg(feature = "sync")]
 mod imp {
@@ -352,6 +352,85 @@ mod imp {
         Ok(())
     }
 
+    /// Every built-in called from all threads at once with *different* arguments per call
+    /// (literal arguments, so the calls share nothing but the function objects of the default
+    /// runtime): whatever a function remembers between calls is hit from several threads with
+    /// several values.  Every result must equal the sequential one.
+    pub fn function_storm(src: &mut Src, st: &mut Stats, _env: &Env) -> CaseResult {
+        let decimals = ["1.5", "2e3", "-0.25", "1e2", "3.75", "1E-2", "0.1", "10.0", "7e0", "-1.5e1", "42", "-7", "0.0", "6.02e23", "1e-7", "abc", ""];
+        let mut exprs: Vec<String> = vec![];
+        let n = 6 + src.below(10);
+        let base = src.below(1000);
+        for k in 0..n {
+            let v = base + k * 7;
+            let d = decimals[(base + k) % decimals.len()];
+            exprs.push(format!("to_number('{}')", d));
+            exprs.push(format!("to_number(to_string(`{}.5`))", v));
+            match src.below(12) {
+                0 => exprs.push(format!("[abs(`-{}`), ceil(`{}.25`), floor(`-{}.75`)]", v, v, v)),
+                1 => exprs.push(format!("to_string(`{{\"k\": {}, \"s\": \"v{}\"}}`)", v, v)),
+                2 => exprs.push(format!("[length('s{}'), reverse('ab{}'), join('-', ['a', 'b{}'])]", v, v, v)),
+                3 => exprs.push(format!("[sort(`[{}, 3, {}, 1]`), max(`[{}, 5]`), min(`[{}, 5]`), sum(`[{}, 0.5]`), avg(`[{}, 1]`)]", v, v + 1, v, v, v, v)),
+                4 => exprs.push(format!("[contains('hay{}', '{}'), starts_with('p{}x', 'p{}'), ends_with('x{}', '{}')]", v, v, v, v, v, v)),
+                5 => exprs.push(format!("[keys(`{{\"a{}\": 1, \"b\": 2}}`), values(`{{\"a\": {}}}`), merge(`{{\"a\": 1}}`, `{{\"a\": {}}}`)]", v, v, v)),
+                6 => exprs.push(format!("[not_null(`null`, `{}`), type(`{}`), to_array(`{}`)]", v, v, v)),
+                7 => exprs.push(format!("map(&to_number(@), `[\"{}\", \"{}.5\", \"{}e1\"]`)", v, v, v)),
+                8 => exprs.push(format!("sort_by(`[{{\"k\": {}}}, {{\"k\": 3}}, {{\"k\": {}}}]`, &k)[*].k", v, v + 2)),
+                9 => exprs.push(format!("[max_by(`[{{\"k\": {}}}, {{\"k\": 3}}]`, &k).k, min_by(`[{{\"k\": {}}}, {{\"k\": 3}}]`, &k).k]", v, v)),
+                10 => exprs.push(format!("`[1, {}, 3]`[?@ > `{}`] | length(@)", v, v / 2)),
+                _ => exprs.push(format!("to_number('{}e{}')", v % 97, k % 5)),
+            }
+        }
+        let doc: jmespath::Rcvar = Arc::new(jmespath::Variable::Null);
+        let compiled: Vec<Option<jmespath::Expression<'static>>> = exprs.iter().map(|e| jmespath::compile(e).ok()).collect();
+        if let Some(i) = compiled.iter().position(|c| c.is_none()) {
+            return Err(Failure::new("function-storm", "harness-compile", format!("{} does not compile", exprs[i]), json!({"expression": exprs[i]})));
+        }
+        let want: Vec<String> = compiled.iter().map(|c| outcome(c.as_ref().unwrap().search(&doc))).collect();
+        let n_threads = 2 + src.below(15);
+        let iters = 150 + src.below(500);
+        st.eval();
+        let barrier = Barrier::new(n_threads);
+        let bad: Mutex<Vec<String>> = Mutex::new(vec![]);
+        let panicked = std::thread::scope(|sc| {
+            let hs: Vec<_> = (0..n_threads)
+                .map(|ti| {
+                    let (barrier, compiled, doc, want, bad, exprs) = (&barrier, &compiled, &doc, &want, &bad, &exprs);
+                    sc.spawn(move || {
+                        barrier.wait();
+                        for it in 0..iters {
+                            // every thread walks the list from its own starting point
+                            let i = (ti * 5 + it) % exprs.len();
+                            let got = if it % 3 == 0 { jmespath::compile(&exprs[i]).ok().map(|c| outcome(c.search(doc))) } else { compiled[i].as_ref().map(|c| outcome(c.search(doc))) };
+                            if got.as_ref() != Some(&want[i]) {
+                                bad.lock().unwrap().push(format!("thread {} {:?}: got {:?}, sequential {:?}", ti, exprs[i], got, want[i]));
+                                return;
+                            }
+                        }
+                    })
+                })
+                .collect();
+            hs.into_iter().map(|h| h.join().is_err()).collect::<Vec<bool>>().into_iter().any(|x| x)
+        });
+        let case = json!({"expressions": exprs, "threads": n_threads, "iterations": iters});
+        if panicked {
+            return Err(Failure::new("function-storm", "panic-in-thread", "a worker thread panicked".into(), case));
+        }
+        let bad = bad.into_inner().unwrap();
+        if let Some(b) = bad.first() {
+            return Err(Failure::new("function-storm", "concurrent-result-differs-from-sequential", format!("{} threads diverged; first: {}", bad.len(), clip(b, 300)), case));
+        }
+        let after: Vec<String> = compiled.iter().map(|c| outcome(c.as_ref().unwrap().search(&doc))).collect();
+        if after != want {
+            return Err(Failure::new("function-storm", "sequential-result-changed-after-concurrent-run", "results after the run differ".into(), case));
+        }
+        st.class_n("function-storm:searches", (n_threads * iters) as u64);
+        if st.nontrivial(&case.to_string()) {
+            st.sample(|| json!({"threads": n_threads, "iterations": iters, "expressions": exprs.len()}));
+        }
+        Ok(())
+    }
+
     /// Contention: many threads (up to 32) repeat the SAME deep or long-running search on
     /// shared data for a while, so that at every instant most threads are deep inside the
     /// interpreter; every single result must equal the sequential one.
@@ -584,6 +663,7 @@ pub fn property() -> Property {
         Sub::Bytes(BytesSub { name: "workload", f: imp::workload, max_len: 3000, quick: Budget { threads: 2, cases: 400 }, thorough: Budget { threads: 2, cases: 15_000 }, keep_unreproducible: true }),
         Sub::Bytes(BytesSub { name: "contention", f: imp::contention, max_len: 2500, quick: Budget { threads: 1, cases: 60 }, thorough: Budget { threads: 1, cases: 2000 }, keep_unreproducible: true }),
         Sub::Bytes(BytesSub { name: "custom-runtime", f: imp::custom_runtime, max_len: 1200, quick: Budget { threads: 1, cases: 600 }, thorough: Budget { threads: 1, cases: 20_000 }, keep_unreproducible: true }),
+        Sub::Bytes(BytesSub { name: "function-storm", f: imp::function_storm, max_len: 600, quick: Budget { threads: 1, cases: 150 }, thorough: Budget { threads: 1, cases: 6000 }, keep_unreproducible: true }),
         Sub::Bytes(BytesSub { name: "compile-storm", f: imp::compile_storm, max_len: 1200, quick: Budget { threads: 1, cases: 60 }, thorough: Budget { threads: 1, cases: 3000 }, keep_unreproducible: true }),
         Sub::Custom(CustomSub { name: "first-use", run: imp::first_use, replay: imp::replay_first_use }),
         Sub::Custom(CustomSub { name: "tsan", run: imp::tsan, replay: imp::replay_tsan }),
